@@ -194,6 +194,8 @@ def script_ops(name, text, lexlines):
 
 
 def rel_uri(uri, dirpath):
+    from urllib.parse import unquote
+    uri = unquote(uri)          # URIs are percent-encoded; the case's directory may be called "my ledger 7"
     pre = "file://" + dirpath + "/"
     return uri[len(pre):] if uri.startswith(pre) else uri
 
